@@ -168,6 +168,15 @@ func init() {
 	},
 		Expl: "Structural necessary conditions of 'tampered or mismatched proofs are rejected': (own) both circuits call VerifierChip.Verify on every path with their own fields; Verify calls the PLONK check and FRI verification on every path with the derived challenges, HashNoPad(publicInputs), the proof's openings/opening proof and the caps in order; every input leaf of the proof, the verifier data and the public inputs (enumerated from the types) influences at least one must-executed constraint; (union) the obligations of C11 (binding and order of the transcript), C12, C13, C14, C16, C17, C20 and C06. Decides that every input is bound and every verification equation is emitted on every path for every element — not that the equations are the right polynomials.",
 		Rule: "own wiring/liveness obligations plus the union of the listed properties' obligations"})
+	registerProp(&propDef{ID: "C18", Rules: rulesC18, Floor: 200,
+		Expl: "Regular-language analysis of the gate registry: the 14 patterns are read from the program (constant arguments of regexp.MustCompile stored under the keys of gateRegexHandlers), compiled with regexp/syntax and wrapped as 'contains a match' (the lookup is unanchored); by product/subset constructions against a reference grammar of plonky2's Debug-format identifiers it is decided that every supported identifier is matched by its own pattern and by no other (so the result is independent of Go's randomised map iteration), that identifiers of unimplemented gates (lookup, lookup-table, u32 arithmetic/add-many/subtraction/range-check, comparison, interleave gates, other extension degrees) match no pattern or are refused by the handler; plus: the no-match exit panics and every return is a handler result; each capture group flows through an error-checked strconv parse into the field of the same meaning (dependency analysis per constant map key); registry ↔ Gate implementations is a bijection; circuits with hiding are refused.",
+		Rule: "one obligation per (gate template × pattern), per unimplemented template, per capture group, per parse call, per registry entry"})
+	registerProp(&propDef{ID: "C19", Rules: rulesC19, Floor: 40,
+		Expl: "Decoder discipline: every json.Unmarshal error is checked and refuses (including inside the custom UnmarshalJSON methods); every leaf of the raw decoder structs is uint64/string/bool (so encoding/json itself refuses negative, fractional, over-64-bit values and scalars for lists); every big.Int.SetString uses constant base 10 and its result is used unmerged; copy completeness (each Goldilocks/BN254 leaf of the decoded proof and verifier data depends on the raw field of the same name and on no other raw field — dependency analysis of the decoding entry points); position (every copy loop reachable from the decoders is a plain 0..len-1 loop over a complete list and accesses elements at its own index). Value equality for arbitrary documents is not decided; ReadCommonCircuitData's configuration copy is covered by the positive tests' exact expectations.",
+		Rule: "one obligation per Unmarshal site, raw type, SetString site, decoded leaf, copy loop"})
+	registerProp(&propDef{ID: "C02", Rules: rulesC02, Floor: 22,
+		Expl: "Partial: (W3) every constant width that reaches the n-bit range primitive through the static call graph is a multiple of the commit checker's base width, the only configuration-dependent width is 64 − ProofOfWorkBits and it is a positive multiple of 16 for every common_circuit_data.json in the repository (else commit-based builds panic in the deferred drain); (dispatch) C06's obligations — no backend skips or mis-selects checks, so the verdict cannot depend on the backend through a dropped constraint; (W2, where listed) honest-fit of reduction sites by interval evaluation. Acceptance of concrete proofs is not decided.",
+		Rule: "one obligation per width reaching the range primitive, per circuit description, per C06 rule"})
 	registerProp(&propDef{ID: "C20", Rules: rulesC20, Floor: 20,
 		Expl: "T3 guard table: 18 refusals reachable from VerifierChip.Verify keyed by the compared quantities (lengths of proof lists vs configuration values, normalised to 'continues iff X op Y'), each must execute on every path and for every element of the list it validates (full-range loops); plus the 16-public-inputs refusal of CircuitFixed.Define and the hiding refusal of ReadCommonCircuitData. Decides presence, operator and coverage of the guards; that a shape change not covered by a guard is rejected by the equations is not decided.",
 		Rule: "one obligation per guard of the hand-confirmed table (DESIGN appendix A.4); the same comparison made at several sites must be found at each"})
